@@ -32,3 +32,142 @@ lemma('nasa9:dHdT=Cp', P, forall=dict(a=RealVec(9, -50., 50.), T=T),
 lemma('nasa9:TdSdT=Cp', P, forall=dict(a=RealVec(9, -50., 50.), T=T),
       given=['T > 0'],
       prove=['T * D(spec.nasa.nasa9_SoR(a, T), T) == spec.nasa.nasa9_CpoR(a, T)'])
+
+# ---- (iii) segment selection and (iv) scalar / array dispatch -------------
+def nasa7():
+    return New(NASA + 'Nasa', name=Const('sp'), T_low=Real(50., 400.),
+               T_mid=Real(500., 1500.), T_high=Real(2000., 6000.),
+               a_low=RealVec(7, -50., 50.), a_high=RealVec(7, -50., 50.))
+
+
+ORDERED = ['0 < self.T_low', 'self.T_low < self.T_mid',
+           'self.T_mid < self.T_high']
+
+contract(NASA + 'Nasa.get_a', P, args=dict(self=nasa7(), T=T),
+         requires=ORDERED,
+         ensures=[('lower-segment', 'implies(T < self.T_mid, result is self.a_low)'),
+                  ('upper-segment-incl-break',
+                   'implies(T >= self.T_mid, result is self.a_high)')],
+         warns='T < self.T_low or T > self.T_high')
+
+for q in ('CpoR', 'HoRT', 'SoR'):
+    contract(NASA + 'Nasa.get_' + q, P, label='scalar',
+             args=dict(self=nasa7(), T=T), requires=ORDERED + ['T > 0'],
+             ensures=['result == spec.nasa.nasa7_%s(self.a_low if T < self.T_mid'
+                      ' else self.a_high, T)' % q])
+    contract(NASA + 'Nasa.get_' + q, P, label='array-is-map',
+             shapes=dict(n=[1, 2, 3]),
+             args=lambda n: dict(self=nasa7(), T=RealVec(n, 50., 6000.)),
+             requires=ORDERED + ['all(T[i] > 0 for i in range(len(T)))'],
+             ensures=['len(result) == len(T)',
+                      'all(at(result, i) == self.get_%s(T=T[i]) for i in range(len(T)))' % q])
+contract(NASA + 'Nasa.get_GoRT', P, label='scalar',
+         args=dict(self=nasa7(), T=T), requires=ORDERED + ['T > 0'],
+         ensures=[('G=H-TS', 'result == self.get_HoRT(T=T) - self.get_SoR(T=T)')])
+contract(NASA + 'Nasa.get_GoRT', P, label='array-is-map',
+         shapes=dict(n=[1, 2, 3]),
+         args=lambda n: dict(self=nasa7(), T=RealVec(n, 50., 6000.)),
+         requires=ORDERED + ['all(T[i] > 0 for i in range(len(T)))'],
+         ensures=['all(at(result, i) == self.get_GoRT(T=T[i]) for i in range(len(T)))'])
+
+# ---- NASA-9 ----------------------------------------------------------------
+def seg(lo, hi):
+    return New(NASA + 'SingleNasa9', T_low=Real(lo, lo + 50.),
+               T_high=Real(hi - 50., hi), a=RealVec(9, -50., 50.))
+
+
+def nasa9(k):
+    bounds = [(100. + 900. * i, 100. + 900. * (i + 1)) for i in range(k)]
+    return New(NASA + 'Nasa9', name=Const('sp'),
+               nasas=ListOf([seg(lo, hi) for lo, hi in bounds]))
+
+
+INSIDE = 'any(s.T_low <= T and T <= s.T_high for s in self.nasas)'
+
+contract(NASA + 'Nasa9._get_nasa', P, shapes=dict(k=[1, 2, 3, 4]),
+         args=lambda k: dict(self=nasa9(k), T=T),
+         ensures=[('segment-contains-T',
+                   'result.T_low <= T and T <= result.T_high'),
+                  ('segment-is-member',
+                   'any(result is s for s in self.nasas)')],
+         raises={'ValueError': 'not (%s)' % INSIDE})
+
+for q in ('CpoR', 'HoRT', 'SoR'):
+    contract(NASA + 'SingleNasa9.get_' + q, P,
+             args=dict(self=seg(100., 1000.), T=T), requires=['T > 0'],
+             ensures=['result == spec.nasa.nasa9_%s(self.a, T)' % q])
+    contract(NASA + 'Nasa9.get_' + q, P, label='scalar',
+             shapes=dict(k=[1, 2, 3]),
+             args=lambda k: dict(self=nasa9(k), T=T),
+             requires=['T > 0'],
+             ensures=['result == spec.nasa.nasa9_%s(self._get_nasa(T).a, T)' % q],
+             raises={'ValueError': 'not (%s)' % INSIDE})
+    contract(NASA + 'Nasa9.get_' + q, P, label='array-is-map',
+             shapes=dict(k=[1, 2], n=[1, 2, 3]),
+             args=lambda k, n: dict(self=nasa9(k), T=RealVec(n, 100., 1900.)),
+             requires=['all(T[i] > 0 for i in range(len(T)))',
+                       'all(any(s.T_low <= T[i] and T[i] <= s.T_high for s in self.nasas) for i in range(len(T)))'],
+             ensures=['all(at(result, i) == self.get_%s(T=T[i]) for i in range(len(T)))' % q])
+contract(NASA + 'Nasa9.get_GoRT', P, label='scalar', shapes=dict(k=[1, 2]),
+         args=lambda k: dict(self=nasa9(k), T=T), requires=['T > 0', INSIDE],
+         ensures=[('G=H-TS', 'result == self.get_HoRT(T=T) - self.get_SoR(T=T)')])
+
+# ---- Shomate -----------------------------------------------------------------
+from pvc import live
+R_UNITS = sorted(live.func_literal('pmutt.constants', 'R', 'R_dict'))
+QUICK_UNITS = ['J/mol/K', 'kcal/mol/K', 'eV/K']
+Tarr = lambda n: RealVec(n, 200., 3000.)
+POS = 'all(T[i] > 0 for i in range(len(T)))'
+for q in ('CpoR', 'HoRT', 'SoR'):
+    contract(SHO + 'get_shomate_' + q, P,
+             shapes=dict(units=QUICK_UNITS, n=[1, 2]),
+             shapes_thorough=dict(units=R_UNITS, n=[1, 2, 3]),
+             args=lambda units, n: dict(a=RealVec(8, -50., 50.), T=Tarr(n),
+                                        units=Const(units)),
+             requires=[POS],
+             ensures=['len(result) == len(T)',
+                      'all(result[i] == spec.nasa.shomate_%s(a, T[i] / 1000) / const.R(units)'
+                      ' for i in range(len(T)))' % q])
+contract(SHO + 'get_shomate_GoRT', P, shapes=dict(units=QUICK_UNITS, n=[1, 2]),
+         shapes_thorough=dict(units=R_UNITS, n=[1, 2, 3]),
+         args=lambda units, n: dict(a=RealVec(8, -50., 50.), T=Tarr(n),
+                                    units=Const(units)),
+         requires=[POS],
+         ensures=[('G=H-TS', 'all(result[i] == (spec.nasa.shomate_HoRT(a, T[i] / 1000)'
+                   ' - spec.nasa.shomate_SoR(a, T[i] / 1000)) / const.R(units)'
+                   ' for i in range(len(T)))')])
+lemma('shomate:dHdT=Cp', P, forall=dict(a=RealVec(8, -50., 50.), T=T),
+      given=['T > 0'],
+      prove=['D(T * spec.nasa.shomate_HoRT(a, T / 1000), T) == spec.nasa.shomate_CpoR(a, T / 1000)'])
+lemma('shomate:TdSdT=Cp', P, forall=dict(a=RealVec(8, -50., 50.), T=T),
+      given=['T > 0'],
+      prove=['T * D(spec.nasa.shomate_SoR(a, T / 1000), T) == spec.nasa.shomate_CpoR(a, T / 1000)'])
+
+
+def shomate(units):
+    return New(SHO + 'Shomate', name=Const('sp'), T_low=Real(100., 300.),
+               T_high=Real(2000., 6000.), a=RealVec(8, -50., 50.),
+               units=Const(units))
+
+
+for q in ('CpoR', 'HoRT', 'SoR'):
+    contract(SHO + 'Shomate.get_' + q, P, label='scalar',
+             shapes=dict(units=QUICK_UNITS[:2]), shapes_thorough=dict(units=R_UNITS),
+             args=lambda units: dict(self=shomate(units), T=T),
+             requires=['T > 0'],
+             ensures=['result == spec.nasa.shomate_%s(self.a, T / 1000) / const.R(self.units)' % q],
+             warns='T < self.T_low or T > self.T_high')
+    contract(SHO + 'Shomate.get_' + q, P, label='array-is-map',
+             shapes=dict(units=QUICK_UNITS[:1], n=[1, 2, 3]),
+             args=lambda units, n: dict(self=shomate(units), T=Tarr(n)),
+             requires=[POS],
+             ensures=['all(at(result, i) == self.get_%s(T=T[i]) for i in range(len(T)))' % q])
+contract(SHO + 'Shomate.get_GoRT', P, label='scalar',
+         shapes=dict(units=QUICK_UNITS[:2]),
+         args=lambda units: dict(self=shomate(units), T=T), requires=['T > 0'],
+         ensures=[('G=H-TS', 'result == self.get_HoRT(T=T) - self.get_SoR(T=T)')])
+contract(SHO + 'Shomate.get_GoRT', P, label='array-is-map',
+         shapes=dict(units=QUICK_UNITS[:1], n=[1, 2, 3]),
+         args=lambda units, n: dict(self=shomate(units), T=Tarr(n)),
+         requires=[POS],
+         ensures=['all(at(result, i) == self.get_GoRT(T=T[i]) for i in range(len(T)))'])
